@@ -528,7 +528,10 @@ func famChain(t *testing.T, r *hx.Rng, o *hx.Out) {
 
 	// real round trips
 	trips := hx.N(30, 200)
-	fixed := []string{"foo/channel-5", "foo/channel-5/bar", "gamm/pool/1", "factory/cosmos1xyz/sub", "uatom", "transfer/channel-7/stake"}
+	// (the last three look like hops only to a format check that ignores the 64-bit bound of the sequence: they are
+	// ordinary bases and must make the round trip — seeded change C33-1)
+	fixed := []string{"foo/channel-5", "foo/channel-5/bar", "gamm/pool/1", "factory/cosmos1xyz/sub", "uatom", "transfer/channel-7/stake",
+		"pool/lp-99999999999999999999", "vault/channel-99999999999999999999", "gamm/lp-18446744073709551616/share"}
 	for i := 0; i < trips; i++ {
 		p := w.paths[r.Intn(len(w.paths))]
 		base, tag := sdkShape(r), "shape"
